@@ -99,6 +99,23 @@ fn glob_sweep(maxlen: usize) -> Value {
             }
         }
     }
+    // token-level patterns (range classes, negated ranges, escapes, odd classes) x texts that contain the range ends
+    let ttexts = crate::model::glob::token_texts();
+    for pat in crate::model::glob::token_patterns(if maxlen >= 5 { 3 } else { 2 }) {
+        patterns += 1;
+        if glob_is_dc(&pat) {
+            dc += 1;
+            continue;
+        }
+        for t in ttexts.iter() {
+            let want = glob_match(&pat, t);
+            let got = ferrous::pubsub::pattern_matches(&pat, t);
+            evals += 1;
+            if want != got && devs.len() < 3000 {
+                devs.push(json!({"pattern": String::from_utf8_lossy(&pat), "text": String::from_utf8_lossy(t), "expected": want, "actual": got}));
+            }
+        }
+    }
     json!({"patterns": patterns, "dont_care_patterns": dc, "evaluations": evals, "devs": devs})
 }
 
